@@ -465,6 +465,28 @@ def r7(repo, run):
     sb = repo.func('SubBuilder.build')
     body = [norm(s) for s in sb.node.body if not isinstance(s, (ast.ImportFrom, ast.Import)) and not (isinstance(s, ast.Expr) and isinstance(s.value, ast.Constant))]
     if body != ['self.preprocess()', 'return StreamNode(self)']:
+        # another spelling: decided by evaluation (the steps of the builder are recording stand-ins)
+        log = []
+        sub = Obj('sub', 'SubBuilder', stages=['S1', 'S2'])
+
+        def stub(name, recv, a, k):
+            log.append(name)
+            return None
+        f = FDE(repo, stubs={'preprocess', 'flatten'}, stub=stub, max_depth=5)
+        made = []
+
+        def mk(*a, **k):
+            made.append((tuple(a), dict(k)))
+            return Obj('stream', 'StreamNode')
+        f.constructors = {'StreamNode': mk}
+        f.extcalls = {'stream_module.StreamNode': mk, 'stream.StreamNode': mk, 'nodes.StreamNode': mk, 'nodes.stream.StreamNode': mk}
+        try:
+            r = f.call(sb, sub)
+        except Unsupported as e:
+            raise AnalysisError('SubBuilder.build: not in the recognised form and not evaluable (%s)' % e)
+        if r.raised is None and log == ['preprocess'] and len(made) == 1 and made[0][0][:1] == (sub,) and not any(v is not None for v in made[0][1].values()) and getattr(r.ret, 'name', None) == 'stream':
+            run.ok('C06.R7', sb, 'SubBuilder.build: preprocess, then StreamNode(self) (evaluated)')
+            return
         run.violation('C06.R7', sb, ' ; '.join(body), 'a sub-build must preprocess its stages and wrap them (unflattened) in a StreamNode')
     else:
         run.ok('C06.R7', sb, 'SubBuilder.build: preprocess(); return StreamNode(self)')
